@@ -483,6 +483,13 @@ impl Session {
         self.required.lock().unwrap().push((class.to_string(), min));
     }
 
+    /// For properties that promise "never blocks / never wedges": a case that has not returned after `secs`
+    /// seconds is written out as a replay file and the process ends with exit code 97; the driver replays the
+    /// case alone and reports a violation only if it hangs (or fails) again, otherwise the run is inconclusive.
+    pub fn hang_is_violation(&self, secs: u64) {
+        inflight::HANG_MS.store(secs * 1000, Ordering::SeqCst);
+    }
+
     pub fn note(&self, text: impl Into<String>) {
         self.agg.lock().unwrap().notes.push(text.into());
     }
@@ -575,6 +582,7 @@ impl Session {
     ) -> Res {
         let mut cx = Cx::new(self.id, &self.known, self.tier);
         cx.replaying = replaying;
+        let _inflight = inflight::enter(gen, value);
         let r = match catch(|| check(value, &mut cx)) {
             Ok(r) => r,
             Err(panic_fail) => cx.fail(panic_fail.sig, panic_fail.msg),
@@ -702,6 +710,7 @@ impl Session {
                                 // shrinking: plain re-evaluation, nothing is counted
                                 let mut cx = Cx::new(self.id, &self.known, self.tier);
                                 cx.replaying = true;
+                                let _inflight = inflight::enter(name, &v);
                                 let r = match catch(|| check(&v, &mut cx)) {
                                     Ok(r) => r,
                                     Err(p) => cx.fail(p.sig, p.msg),
@@ -843,9 +852,68 @@ impl Session {
             .collect()
     }
 
+    /// Build and write `evidence/<ID>.json` from the aggregate (also used, best effort, by the abort handler).
+    fn write_evidence(&self, agg: &Agg, wall: f64, violations: usize, aborted: bool) -> std::io::Result<()> {
+        let exhaustive_gens: Vec<&String> = agg
+            .gens
+            .iter()
+            .filter(|(_, g)| g.exhaustive)
+            .map(|(k, _)| k)
+            .collect();
+        let gens: BTreeMap<&String, J> = agg
+            .gens
+            .iter()
+            .map(|(k, g)| {
+                (
+                    k,
+                    json!({"evaluations": g.evaluations, "nontrivial": g.nontrivial, "exhaustive": g.exhaustive}),
+                )
+            })
+            .collect();
+        let mut coverage = json!({
+            "evaluations": agg.evaluations,
+            "distinct_nontrivial": agg.nontrivial_hashes.len(),
+            "nontrivial_total": agg.nontrivial_total,
+            "rule": RULE.lock().unwrap().clone(),
+            "samples": agg.samples,
+            "classes": agg.classes,
+            "generators": gens,
+            "dont_care_outcomes": agg.dont_care,
+            "known_finding_hits": agg.known_hits,
+            "exhaustive": false,
+            "exhaustive_subspaces": exhaustive_gens,
+            "explanation": format!(
+                "distinct_nontrivial counts distinct 64-bit hashes of the canonical JSON encoding of cases that satisfy the rule (tracked up to {MAX_DISTINCT_TRACKED}); generators marked exhaustive enumerated their finite sub-space completely; the property as a whole is not exhaustively decided. {}",
+                agg.notes.join(" ")
+            ),
+        });
+        for (k, v) in &agg.extra {
+            coverage[k] = v.clone();
+        }
+        let evidence = json!({
+            "property_id": self.id,
+            "tier": match self.tier { Tier::Quick => "quick", Tier::Thorough => "thorough" },
+            "seed": self.seed,
+            "level": self.level.as_str(),
+            "coverage": coverage,
+            "assumptions": ASSUMPTIONS.lock().unwrap().clone(),
+            "wall_s": wall,
+            "violations": violations,
+            "aborted": aborted,
+            "inconclusive": agg.inconclusive,
+        });
+        if self.only.is_none() {
+            let dir = self.verif_dir.join("evidence");
+            let _ = std::fs::create_dir_all(&dir);
+            let path = dir.join(format!("{}.json", self.id));
+            std::fs::write(&path, serde_json::to_string_pretty(&evidence).unwrap())?;
+        }
+        Ok(())
+    }
+
     fn finish(self) -> i32 {
         let wall = self.start.elapsed().as_secs_f64();
-        let mut agg = self.agg.into_inner().unwrap();
+        let mut agg = std::mem::take(&mut *self.agg.lock().unwrap());
         if let Mode::Replay { matched, generator, .. } = &self.mode {
             if !matched.load(Ordering::SeqCst) {
                 eprintln!("replay: no generator named {generator:?} in this binary");
@@ -896,61 +964,9 @@ impl Session {
             );
         }
 
-        let exhaustive_gens: Vec<&String> = agg
-            .gens
-            .iter()
-            .filter(|(_, g)| g.exhaustive)
-            .map(|(k, _)| k)
-            .collect();
-        let gens: BTreeMap<&String, J> = agg
-            .gens
-            .iter()
-            .map(|(k, g)| {
-                (
-                    k,
-                    json!({"evaluations": g.evaluations, "nontrivial": g.nontrivial, "exhaustive": g.exhaustive}),
-                )
-            })
-            .collect();
-        let mut coverage = json!({
-            "evaluations": agg.evaluations,
-            "distinct_nontrivial": agg.nontrivial_hashes.len(),
-            "nontrivial_total": agg.nontrivial_total,
-            "rule": RULE.lock().unwrap().clone(),
-            "samples": agg.samples,
-            "classes": agg.classes,
-            "generators": gens,
-            "dont_care_outcomes": agg.dont_care,
-            "known_finding_hits": agg.known_hits,
-            "exhaustive": false,
-            "exhaustive_subspaces": exhaustive_gens,
-            "explanation": format!(
-                "distinct_nontrivial counts distinct 64-bit hashes of the canonical JSON encoding of cases that satisfy the rule (tracked up to {MAX_DISTINCT_TRACKED}); generators marked exhaustive enumerated their finite sub-space completely; the property as a whole is not exhaustively decided. {}",
-                agg.notes.join(" ")
-            ),
-        });
-        for (k, v) in &agg.extra {
-            coverage[k] = v.clone();
-        }
-        let evidence = json!({
-            "property_id": self.id,
-            "tier": match self.tier { Tier::Quick => "quick", Tier::Thorough => "thorough" },
-            "seed": self.seed,
-            "level": self.level.as_str(),
-            "coverage": coverage,
-            "assumptions": ASSUMPTIONS.lock().unwrap().clone(),
-            "wall_s": wall,
-            "violations": agg.violations.len(),
-            "inconclusive": agg.inconclusive,
-        });
-        if self.only.is_none() {
-            let dir = self.verif_dir.join("evidence");
-            let _ = std::fs::create_dir_all(&dir);
-            let path = dir.join(format!("{}.json", self.id));
-            if let Err(e) = std::fs::write(&path, serde_json::to_string_pretty(&evidence).unwrap()) {
-                eprintln!("cannot write evidence: {e}");
-                return 2;
-            }
+        if let Err(e) = self.write_evidence(&agg, wall, agg.violations.len(), false) {
+            eprintln!("cannot write evidence: {e}");
+            return 2;
         }
         eprintln!(
             "[{}] evaluations={} distinct_nontrivial={} violations={} wall={:.1}s",
@@ -976,6 +992,216 @@ impl Session {
             }
         }
         0
+    }
+}
+
+/// Cases being evaluated right now, so that a process abort caused by the code under test (a panic
+/// while unwinding, a panic in a `Drop` on a thread the harness does not own, a stack overflow, an
+/// allocation failure) is attributed to its case instead of killing the check silently.
+mod inflight {
+    use super::*;
+    use std::sync::atomic::{AtomicPtr, AtomicU64, AtomicUsize};
+    use std::time::Duration;
+
+    pub struct Slot {
+        case: AtomicPtr<()>,
+        ser: AtomicUsize,
+        gen_ptr: AtomicPtr<u8>,
+        gen_len: AtomicUsize,
+        /// milliseconds since the session started when the case was entered
+        since_ms: AtomicU64,
+        tid: i64,
+    }
+
+    static SLOTS: Mutex<Vec<&'static Slot>> = Mutex::new(Vec::new());
+    pub static SESSION: AtomicPtr<Session> = AtomicPtr::new(std::ptr::null_mut());
+
+    fn gettid() -> i64 {
+        unsafe { libc::syscall(libc::SYS_gettid) as i64 }
+    }
+
+    thread_local! {
+        static MINE: &'static Slot = {
+            let slot: &'static Slot = Box::leak(Box::new(Slot {
+                case: AtomicPtr::new(std::ptr::null_mut()),
+                ser: AtomicUsize::new(0),
+                gen_ptr: AtomicPtr::new(std::ptr::null_mut()),
+                gen_len: AtomicUsize::new(0),
+                since_ms: AtomicU64::new(0),
+                tid: gettid(),
+            }));
+            SLOTS.lock().unwrap().push(slot);
+            slot
+        };
+    }
+
+    fn ser<T: Serialize>(p: *const ()) -> J {
+        serde_json::to_value(unsafe { &*(p as *const T) }).unwrap_or(J::Null)
+    }
+
+    pub struct Guard(&'static Slot, *mut ());
+
+    impl Drop for Guard {
+        fn drop(&mut self) {
+            // nested evaluations (a check that runs another generator) restore the outer case
+            self.0.case.store(self.1, Ordering::SeqCst);
+        }
+    }
+
+    pub fn enter<T: Serialize>(gen: &str, value: &T) -> Guard {
+        MINE.with(|slot| {
+            let slot: &'static Slot = slot;
+            let prev = slot.case.load(Ordering::SeqCst);
+            slot.gen_ptr.store(gen.as_ptr() as *mut u8, Ordering::SeqCst);
+            slot.gen_len.store(gen.len(), Ordering::SeqCst);
+            slot.ser.store(ser::<T> as usize, Ordering::SeqCst);
+            if HANG_MS.load(Ordering::Relaxed) != 0 {
+                slot.since_ms.store(now_ms(), Ordering::SeqCst);
+            }
+            slot.case.store(value as *const T as *mut (), Ordering::SeqCst);
+            Guard(slot, prev)
+        })
+    }
+
+    static HANDLING: AtomicBool = AtomicBool::new(false);
+    /// 0 = a case that never returns is left to the driver's watchdog (exit 2)
+    pub static HANG_MS: AtomicU64 = AtomicU64::new(0);
+    static T0: std::sync::OnceLock<Instant> = std::sync::OnceLock::new();
+
+    fn now_ms() -> u64 {
+        T0.get_or_init(Instant::now).elapsed().as_millis() as u64
+    }
+
+    /// A case of a property that promises "never blocks / never wedges" has been running for longer than the
+    /// limit: write it out and end the process; the driver replays it alone to confirm (tools/abort_triage.sh).
+    pub fn monitor() {
+        std::thread::spawn(|| loop {
+            std::thread::sleep(Duration::from_millis(500));
+            let limit = HANG_MS.load(Ordering::Relaxed);
+            let session = SESSION.load(Ordering::SeqCst);
+            if limit == 0 || session.is_null() {
+                continue;
+            }
+            let session: &Session = unsafe { &*session };
+            let slots: Vec<&'static Slot> = match SLOTS.try_lock() {
+                Ok(g) => g.clone(),
+                Err(_) => continue,
+            };
+            let now = now_ms();
+            for slot in slots {
+                let p = slot.case.load(Ordering::SeqCst);
+                let since = slot.since_ms.load(Ordering::SeqCst);
+                if p.is_null() || now.saturating_sub(since) < limit {
+                    continue;
+                }
+                std::thread::sleep(Duration::from_millis(50));
+                if slot.case.load(Ordering::SeqCst) != p || slot.since_ms.load(Ordering::SeqCst) != since {
+                    continue;
+                }
+                if HANDLING.swap(true, Ordering::SeqCst) {
+                    return;
+                }
+                let gen = unsafe {
+                    std::str::from_utf8_unchecked(std::slice::from_raw_parts(slot.gen_ptr.load(Ordering::SeqCst), slot.gen_len.load(Ordering::SeqCst)))
+                }
+                .to_string();
+                let f: fn(*const ()) -> J = unsafe { std::mem::transmute(slot.ser.load(Ordering::SeqCst)) };
+                let case = f(p);
+                let reason = format!("this case has not returned after {} s: the code under test blocks for ever", limit / 1000);
+                if let Mode::Replay { path, .. } = &session.mode {
+                    println!("VIOLATION property={} replay={}", session.id, path.display());
+                    println!("  reason={reason}");
+                    let _ = std::io::Write::flush(&mut std::io::stdout());
+                    unsafe { libc::_exit(1) }
+                }
+                let path = session.write_replay(&gen, &reason, &case);
+                println!("HUNG-WHILE property={} generator={} replay={}", session.id, gen, path);
+                for _ in 0..1000 {
+                    if let Ok(agg) = session.agg.try_lock() {
+                        let _ = session.write_evidence(&agg, session.start.elapsed().as_secs_f64(), agg.violations.len() + 1, true);
+                        break;
+                    }
+                    std::thread::yield_now();
+                }
+                let _ = std::io::Write::flush(&mut std::io::stdout());
+                unsafe { libc::_exit(97) }
+            }
+        });
+    }
+
+    extern "C" fn on_abort(sig: libc::c_int) {
+        if HANDLING.swap(true, Ordering::SeqCst) {
+            // another thread is aborting too and already reports: wait for it to end the process
+            loop {
+                unsafe { libc::sleep(1) };
+            }
+        }
+        let session = SESSION.load(Ordering::SeqCst);
+        if session.is_null() {
+            unsafe { libc::_exit(128 + sig) }
+        }
+        let session: &Session = unsafe { &*session };
+        let me = gettid();
+        let slots: Vec<&'static Slot> = {
+            let mut got = None;
+            for _ in 0..1000 {
+                if let Ok(g) = SLOTS.try_lock() {
+                    got = Some(g.clone());
+                    break;
+                }
+                std::thread::yield_now();
+            }
+            got.unwrap_or_default()
+        };
+        let mut cands: Vec<(bool, String, J)> = Vec::new();
+        for slot in slots {
+            let p = slot.case.load(Ordering::SeqCst);
+            if p.is_null() {
+                continue;
+            }
+            let gen = unsafe {
+                std::str::from_utf8_unchecked(std::slice::from_raw_parts(slot.gen_ptr.load(Ordering::SeqCst), slot.gen_len.load(Ordering::SeqCst)))
+            }
+            .to_string();
+            let f: fn(*const ()) -> J = unsafe { std::mem::transmute(slot.ser.load(Ordering::SeqCst)) };
+            cands.push((slot.tid == me, gen, f(p)));
+        }
+        cands.sort_by_key(|c| !c.0);
+        let what = if sig == libc::SIGABRT { "SIGABRT" } else { "a fatal signal" };
+        let reason = format!("the check process was aborted ({what}) by the code under test while this case was being evaluated");
+        if let Mode::Replay { path, .. } = &session.mode {
+            println!("VIOLATION property={} replay={}", session.id, path.display());
+            println!("  reason={reason}");
+            let _ = std::io::Write::flush(&mut std::io::stdout());
+            unsafe { libc::_exit(1) }
+        }
+        let mut paths = Vec::new();
+        for (own, gen, case) in &cands {
+            let path = session.write_replay(gen, &reason, case);
+            println!("ABORTED-WHILE property={} own_thread={} generator={} replay={}", session.id, *own as u8, gen, path);
+            paths.push((gen.clone(), path));
+        }
+        // best-effort evidence: what had been merged so far, the abort counted as one violation
+        for _ in 0..1000 {
+            if let Ok(agg) = session.agg.try_lock() {
+                let _ = session.write_evidence(&agg, session.start.elapsed().as_secs_f64(), agg.violations.len() + 1, true);
+                break;
+            }
+            std::thread::yield_now();
+        }
+        let _ = std::io::Write::flush(&mut std::io::stdout());
+        unsafe { libc::_exit(128 + sig) }
+    }
+
+    pub fn install(session: &Session) {
+        SESSION.store(session as *const Session as *mut Session, Ordering::SeqCst);
+        unsafe {
+            let mut sa: libc::sigaction = std::mem::zeroed();
+            sa.sa_sigaction = on_abort as usize;
+            sa.sa_flags = libc::SA_ONSTACK;
+            libc::sigemptyset(&mut sa.sa_mask);
+            libc::sigaction(libc::SIGABRT, &sa, std::ptr::null_mut());
+        }
     }
 }
 
@@ -1102,7 +1328,10 @@ pub fn run(
         scale,
     };
     QUIET.with(|q| q.set(true));
+    inflight::install(&session);
+    inflight::monitor();
     body(&session);
+    inflight::SESSION.store(std::ptr::null_mut(), Ordering::SeqCst);
     let code = session.finish();
     std::process::exit(code);
 }
